@@ -119,7 +119,9 @@ __CPROVER_ensures((nv_lo <= nv_gp && nv_gp < nv_hi) ==> ((nv_gj < nv_gb) ? (nv_t
 __CPROVER_ensures(self->m_bin_counts.p[nv_gb] == nv_hi - nv_lo)
 #define NV_LOOP_histogram_update_1 \
 __CPROVER_assigns(bin, begin, nv_cov, nv_calls, nv_lo, nv_hi, nv_seen, __CPROVER_object_whole(self->m_bin_counts.p), __CPROVER_object_whole(self->m_bin_means.p), __CPROVER_object_whole(self->m_bin_medians.p)) \
-__CPROVER_loop_invariant(0 <= bin && bin <= bins && nv_calls == bin && 0 <= nv_cov && nv_cov <= nv_n && (bin < bins ==> begin == nv_base + nv_cov) && (bin == bins ==> nv_cov == nv_n)) \
+/* the counter's upper bound is stated through the loop's own condition (NV_LOOPLHS <= NV_LOOPBOUND: `bin <= bins` for `bin < bins`, \
+ * `bin + 1 <= bins` when a maintainer peels the last bin off the loop: `bin + 1 < bins`), so that the exit state is exact in both shapes */ \
+__CPROVER_loop_invariant(0 <= bin && bin <= bins && NV_LOOPLHS_histogram_update_1 <= NV_LOOPBOUND_histogram_update_1 && nv_calls == bin && 0 <= nv_cov && nv_cov <= nv_n && (bin < bins ==> begin == nv_base + nv_cov) && (bin == bins ==> nv_cov == nv_n)) \
 __CPROVER_loop_invariant(nv_seen == (nv_gb < bin) && (nv_seen ==> (0 <= nv_lo && nv_lo <= nv_hi && nv_hi <= nv_cov && self->m_bin_counts.p[nv_gb] == nv_hi - nv_lo))) \
 /* when the ghost bin is about to be filled, every still-unassigned value is >= its lower threshold */ \
 __CPROVER_loop_invariant((bin == nv_gb && bin > 0 && nv_gp >= nv_cov) ==> update_op_inv(self->m_thresholds.p[bin - 1], nv_gv)) \
